@@ -141,6 +141,8 @@ def _hdr(name):
 
 _SKIPPED = eq(_hdr("X-Skip"), S("1"))
 SKIP = ne(_hdr("X-Skip"), S("1"))            # the condition of the older streams: holds unless the probe sends X-Skip: 1
+_DENIED = eq(_hdr("X-Deny"), S("1"))
+DENY = ne(_hdr("X-Deny"), S("1"))            # false exactly for the probe that asks to be refused (X-Deny: 1)
 _QUERY = call(sel(_REQUEST, "URL"), "Query")
 _ATTR_X = eq(sel(_SUBJECT, "Attributes", "x"), B(True))
 
@@ -178,6 +180,16 @@ EXPR_CEL = EXPR_BOTH + [
     or_(eq(sel(_OUTPUTS, "y"), I(1)), B(True)),
     or_(eq(idx(_OUTPUTS, S("y")), S("a")), B(True)),
 ]
+# expressions of a cel authorizer that listen to the probe asking to be refused: each evaluates to what DENY evaluates
+# to for every probe request.  A cel authorizer calls nobody; refusing that probe is how it shows WHICH catalogue entry
+# it is (the error names its source).  The model recognises them by the header they read (Cel.readsHeader).
+EXPR_DENY = [
+    DENY,
+    not_(_DENIED),
+    ite(_DENIED, B(False), B(True)),
+    and_(DENY, ne(sel(_SUBJECT, "ID"), S(""))),
+    or_(DENY, eq(sel(_REQUEST, "Method"), S(""))),
+]
 EXPR_REMOTE = EXPR_BOTH + [
     or_(eq(sel(_PAYLOAD, "x"), I(1)), B(True)),
     or_(sel(_PAYLOAD, "ok"), B(True)),
@@ -210,11 +222,13 @@ CEL_BAD = {"nonbool": CEL_NONBOOL, "dyn": CEL_DYN, "syntax": CEL_SYNTAX, "unknow
 CEL_ALL_BAD = [e for k in ("nonbool", "dyn", "syntax", "unknown") for e in CEL_BAD[k]]
 # text -> tree, for every expression the generator can produce
 CEL = {}
-for _e in COND_ANY + COND_SUBJECT + EXPR_CEL + EXPR_REMOTE + CEL_ALL_BAD:
+for _e in COND_ANY + COND_SUBJECT + EXPR_CEL + EXPR_DENY + EXPR_REMOTE + CEL_ALL_BAD:
     _t = cel_render(_e)
     assert CEL.get(_t, _e) == _e, "two trees for " + _t
     CEL[_t] = _e
 assert cel_render(SKIP) == COND_EXPR
+DENY_EXPR = cel_render(DENY)
+assert DENY_EXPR == 'Request.Header("X-Deny") != "1"'     # the prototype expression of the harness' cel authorizers
 
 
 def cel_case():
@@ -258,6 +272,7 @@ PAYLOADS = {
                      8: {"no_such_field": 1}, 9: {"expressions": [{"expression": "true ||"}]}},
     "authz/cel": {0: {}, 1: {"expressions": [{"expression": "true"}]},
                   2: {"expressions": [{"expression": 'Subject.ID != ""', "message": "m"}]},
+                  3: {"expressions": [{"expression": 'Request.Header("X-Deny") != "1"'}]},
                   8: {"no_such_field": 1}, 9: {"expressions": [{"expression": "Subject.Attributes.admin"}]}},
     "ctx/generic": {0: {}, 1: {"values": {"v": "ovr"}}, 2: {"continue_pipeline_on_error": False},
                     8: {"no_such_field": 1}, 9: {"cache_ttl": "soon"}},
@@ -266,7 +281,7 @@ PAYLOADS = {
     "eh/default": {0: {}, 8: {"no_such_field": 1}, 9: {"to": "http://elsewhere.test/"}},
     "eh/www_authenticate": {0: {}, 8: {"no_such_field": 1}, 9: {"realm": {"a": "b"}}},
 }
-GOOD = {"authn/generic": [0, 1, 2], "authn/anonymous": [0, 1], "authz/remote": [0, 1, 2], "authz/cel": [0, 1, 2],
+GOOD = {"authn/generic": [0, 1, 2], "authn/anonymous": [0, 1], "authz/remote": [0, 1, 2], "authz/cel": [0, 1, 2, 3],
         "ctx/generic": [0, 1, 2],
         "fin/header": [0, 1], "eh/redirect": [0], "eh/default": [0], "eh/www_authenticate": [0]}
 # Tags from TYPED on name the VALUES of the case's `ovr` table (`ovr[tag - TYPED]`): the model decodes the value itself
@@ -1041,7 +1056,7 @@ def grid_conditions():
 def expression_values(typ):
     """rule-level `config` values for the `expressions` of a cel / remote authorizer: one entry per expression of the
     table (valid ones for that type's run-time context, and everything that must be refused), and malformed shapes"""
-    good = EXPR_CEL if typ == "cel" else EXPR_REMOTE
+    good = EXPR_CEL + EXPR_DENY if typ == "cel" else EXPR_REMOTE
     t, d = cel_render(good[0]), cel_render(CEL_DYN[0])
     vals = [{"expressions": [{"expression": cel_render(e)}]} for e in good + CEL_ALL_BAD]
     vals += [
@@ -1099,6 +1114,120 @@ def gen_expression_case(rng):
     return case(mode, None if rng.random() < 0.7 else COMPLETE_DEFAULT, rules, rng.choice(PATHS), ov)
 
 
+# ---------------------------------------------------------------------------------------------------------------
+# one rule-level config, several catalogue entries: the SAME override value put over different mechanisms of one type
+# (by the default rule and a rule, by two rules of a history, by two steps of one rule).  Every step must get a variant
+# of the catalogue entry IT names: the dual of the look-alike families (one entry, values that print alike).  Entries
+# of one type that call out are told apart by the address they call; the cel authorizers call nobody and are told apart
+# by the source of the error they raise for the probe that asks to be refused.
+
+TWINS = {"authn/generic": ("authn", ["g1", "g2", "duo"]), "authz/cel": ("authz", ["x1", "x2"]),
+         "authz/remote": ("authz", ["z1", "z2", "keto"]), "ctx/generic": ("ctx", ["c1", "c2", "keto"]),
+         "fin/header": ("fin", ["f1", "f2", "keto"]), "eh/www_authenticate": ("eh", ["w1", "w2"])}
+
+
+def twin_values(typ):
+    if typ == "authz/cel":
+        one = [{"expressions": [{"expression": cel_render(e)}]} for e in EXPR_DENY + [EXPR_CEL[0], EXPR_CEL[4]]]
+        return one + [{"expressions": [{"expression": cel_render(EXPR_CEL[5]), "message": "m"},
+                                       {"expression": cel_render(EXPR_DENY[1])}]}]
+    if typ == "authn/generic":
+        return [{"allow_fallback_on_error": False}, {"cache_ttl": "5s"}]
+    if typ in ("authz/remote", "ctx/generic"):
+        return [{"values": {"v": "tw"}}, {"cache_ttl": "1m"}]
+    if typ == "fin/header":
+        return [{"headers": {"X-Fin": "tw/{{ .Subject.ID }}", "X-Tw": "t"}}]
+    return [{"realm": "tw"}]
+
+
+def twin_steps(ov, kind, refs, conds=()):
+    """steps referencing the mechanisms `refs` = [(id, value or None)], the i-th one guarded by conds[i] if given"""
+    return [(ov.step({KEY_OF[kind]: mid}, v, conds[i] if i < len(conds) else "absent", on_error=kind == "eh")
+             if v is not None else step({KEY_OF[kind]: mid}, conds[i] if i < len(conds) else "absent",
+                                        on_error=kind == "eh"))
+            for i, (mid, v) in enumerate(refs)]
+
+
+def twin_definition(kind, steps, on_error=ABSENT, with_authn=True):
+    """(execute, on_error) of a definition that uses `steps` (all of one kind) and shows their effect"""
+    anon, fin = step({"authenticator": "anon"}), step({"finalizer": "f3"})
+    if kind == "eh":
+        return [step({"authenticator": "g3"})], steps
+    if kind == "authn":
+        return steps + [step({"authenticator": "g3"}), step({"contextualizer": "c3"})], on_error
+    if kind == "fin":
+        return ([anon] if with_authn else []) + steps, on_error
+    return ([anon] if with_authn else []) + steps + [fin], on_error
+
+
+def twin_on_errors():
+    """error pipelines under which the source of an error stays visible (none, `default` handler) or not (redirect)"""
+    return [ABSENT, [step({"error_handler": "edef"}, on_error=True)], [step({"error_handler": "e2"}, on_error=True)]]
+
+
+def grid_twins():
+    """every type with several catalogue entries x every ordered pair of entries x every value (cel authorizers; one
+    value for the types whose entries are told apart by the address they call): the first entry used (a) by the
+    default rule, (b) by an earlier rule of the history, (c) by an earlier (conditional) step of the same rule"""
+    cases = []
+    n = 0
+    for typ, (kind, mids) in TWINS.items():
+        for a, b in itertools.permutations(mids, 2):
+            for v in (twin_values(typ) if typ == "authz/cel" else twin_values(typ)[:1]):
+                n += 1
+                oe = twin_on_errors()[n % 2]
+                path = PATHS[n % 3]
+                # (b) two rules of one history (both orders come with the ordered pairs), then the first one again
+                ov = Overrides()
+                rules = [rule(*twin_definition(kind, twin_steps(ov, kind, [(m, v)]), oe)) for m in (a, b, a)]
+                cases.append(case("decision", None, rules, path, ov))
+                # (a) the default rule uses the first entry, a rule the second (alone: the other stages are inherited)
+                ov = Overrides()
+                dex, deh = twin_definition(kind, twin_steps(ov, kind, [(a, v)]), oe)
+                if kind == "eh":
+                    rules = [rule([step({"authenticator": "g1"})], twin_steps(ov, kind, [(b, v)])),
+                             rule([step({"authenticator": "g1"})], twin_steps(ov, kind, [(b, None)]))]
+                else:
+                    rules = [rule(twin_steps(ov, kind, [(b, v)])), rule(twin_steps(ov, kind, [(b, None)])),
+                             rule(twin_steps(ov, kind, [(a, None)]))]
+                cases.append(case("decision", default_rule(dex, deh, None), rules, path, ov))
+                # (c) two steps of one rule, the first one conditional (the probes with X-Skip reach the second)
+                ov = Overrides()
+                rules = [rule(*twin_definition(kind, twin_steps(ov, kind, [(a, v), (b, v)], [SKIP]), oe)),
+                         rule(*twin_definition(kind, twin_steps(ov, kind, [(a, None), (b, v)], [SKIP]), oe))]
+                cases.append(case("decision", None, rules, path, ov))
+    return cases
+
+
+def gen_twin_case(rng):
+    """one factory, 2..5 rules putting one of two values over the entries of one type (any order, repetitions, now
+    and then without override), the default rule doing the same in a third of the cases"""
+    ov = Overrides()
+    typ = rng.choice(sorted(TWINS) + ["authz/cel", "authz/cel"])
+    kind, mids = TWINS[typ]
+    vals = rng.sample(twin_values(typ), min(2, len(twin_values(typ))))
+    mode = "proxy" if rng.random() < 0.15 else "decision"
+
+    def refs():
+        k = 1 if rng.random() < 0.7 else 2
+        return [(rng.choice(mids), None if rng.random() < 0.15 else rng.choice(vals)) for _ in range(k)]
+
+    def conds():
+        return [rng.choice(COND_ANY)] if rng.random() < 0.3 else []
+    d = None
+    if rng.random() < 0.35:
+        dex, deh = twin_definition(kind, dedup(twin_steps(ov, kind, refs(), conds())), rng.choice(twin_on_errors()))
+        d = default_rule(dex, deh, rng.choice([None, True]))
+    rules = []
+    for _ in range(rng.choice([2, 2, 3, 4, 5])):
+        alone = d is not None and kind != "eh" and rng.random() < 0.5
+        ex, eh = twin_definition(kind, twin_steps(ov, kind, refs(), conds()), rng.choice(twin_on_errors()), not alone)
+        if alone and kind in ("authz", "ctx"):
+            ex = ex[:-1]                      # the finalization stage is inherited as well
+        rules.append(rule(ex, eh, None, mode == "proxy" or rng.random() < 0.3))
+    return case(mode, d, rules, rng.choice(PATHS), ov)
+
+
 def small_scope(maxlen=4):
     return (grid_orderings(maxlen) + grid_backtracking() + grid_steps() + grid_spellings() + grid_shared_ids()
-            + grid_lookalikes() + grid_unknown_refs() + grid_conditions() + grid_expressions())
+            + grid_lookalikes() + grid_unknown_refs() + grid_conditions() + grid_expressions() + grid_twins())
